@@ -847,105 +847,125 @@ theorem C14_guards_array (da : DataArray) (d : Dim) (labels : List Str) (n idx :
     rw [h']
     simp only [List.append_assoc]
 
-/-- `check_tag`: the four sites whose conditions compile (missing position — a position of zeros is a position —,
-position / extent lengths, unit count against the references' descriptors, non-SI unit) fire exactly when the model
-reports them; `position` / `extent` are the stored tuples, of which the description keeps the lengths -/
+/-- `check_tag`: the six sites whose conditions compile (missing position — a position of zeros is a position —,
+position / extent lengths, position and extent length against the rank of every reference, unit count against the
+references' descriptors, non-SI unit) fire exactly when the model reports them; `position` / `extent` are the stored
+tuples, of which the description keeps the lengths -/
 theorem C14_guards_tag (position extent : List Rat) (arrays : List DataArray) (t : Tag)
     (hp : position.length = t.posLen) (he : extent.length = t.extLen) :
     ∃ ids, fired (tagEnv position extent t.units t.refs.length (refArrays arrays t.refs)) guards_check_tag = .ok ids ∧
-      ∀ k ∈ [MsgId.NoPosition, .PositionExtentMismatch, .ReferenceUnitsMismatch, .InvalidUnit],
+      ∀ k ∈ [MsgId.NoPosition, .PositionExtentMismatch, .PositionDimensionMismatch, .ExtentDimensionMismatch,
+             .ReferenceUnitsMismatch, .InvalidUnit],
         (k ∈ ids ↔ .plain k ∈ checkTag arrays t) := by
   refine ⟨_, guards_tag position extent arrays t hp he, ?_⟩
   intro k hk
-  have hne : UnitsLenMismatch t.units (refArrays arrays t.refs) → t.refs ≠ [] := by
-    rintro ⟨da, hda, -⟩ h; simp [refArrays, h] at hda
+  have hne : ∀ {P : DataArray → Prop}, (∃ da ∈ refArrays arrays t.refs, P da) → t.refs ≠ [] := by
+    rintro P ⟨da, hda, -⟩ h; simp [refArrays, h] at hda
   simp only [List.mem_cons, List.not_mem_nil, or_false] at hk
-  rcases hk with rfl | rfl | rfl | rfl
+  rcases hk with rfl | rfl | rfl | rfl | rfl | rfl
   · rw [C14_complete_NoPosition]; simp
   · rw [C14_complete_PositionExtentMismatch]; simp
+  · rw [C14_complete_PositionDimensionMismatch]
+    simp only [List.mem_append, List.mem_ite_nil_right, List.mem_singleton, reduceCtorEq, and_false, false_or,
+      or_false, Bool.and_eq_true, Bool.not_eq_true', List.isEmpty_eq_false_iff, List.any_eq_true,
+      bne_iff_ne, ne_eq, and_true]
+    exact ⟨fun h => h.2, fun h => ⟨hne h, h⟩⟩
+  · rw [C14_complete_ExtentDimensionMismatch]
+    simp only [List.mem_append, List.mem_ite_nil_right, List.mem_singleton, reduceCtorEq, and_false, false_or,
+      or_false, Bool.and_eq_true, Bool.not_eq_true', List.isEmpty_eq_false_iff, List.any_eq_true,
+      bne_iff_ne, ne_eq, and_true]
+    exact ⟨fun h => h.2, fun h => ⟨hne h.2, h⟩⟩
   · rw [C14_complete_ReferenceUnitsMismatch]
     simp only [List.mem_append, List.mem_ite_nil_right, List.mem_singleton, reduceCtorEq, and_false, false_or,
-      or_false, true_and, Bool.and_eq_true, Bool.not_eq_true', List.isEmpty_eq_false_iff, List.any_eq_true,
+      or_false, Bool.and_eq_true, Bool.not_eq_true', List.isEmpty_eq_false_iff, List.any_eq_true,
       List.mem_map, bne_iff_ne, ne_eq, UnitsLenMismatch, and_true]
     constructor
     · rintro ⟨-, ru, ⟨da, hda, rfl⟩, h⟩; exact ⟨da, hda, h⟩
-    · rintro ⟨da, hda, h⟩; exact ⟨hne ⟨da, hda, h⟩, _, ⟨da, hda, rfl⟩, h⟩
+    · rintro ⟨da, hda, h⟩; exact ⟨hne (P := fun _ => True) ⟨da, hda, trivial⟩, _, ⟨da, hda, rfl⟩, h⟩
   · rw [C14_complete_InvalidUnit, ← anyNonSi_iff]; simp
 
 /-- `check_multi_tag`, for a multi-tag whose shape reads return (linked arrays of rank ≥ 1): missing positions — no
-link, or a linked array without entries —, positions / extents shapes, unit count, non-SI unit -/
+link, or a linked array without entries —, positions / extents shapes, entries per position / extent against the rank
+of every reference, unit count, non-SI unit -/
 theorem C14_guards_multi_tag (arrays : List DataArray) (t : MultiTag)
     (hp : ∀ sh, MtPosShape arrays t = some sh → sh ≠ []) (he : ∀ sh, MtExtShape arrays t = some sh → sh ≠ []) :
     ∃ ids, fired (mtagEnv (MtPosShape arrays t) (MtExtShape arrays t) t.units t.refs.length (refArrays arrays t.refs))
         guards_check_multi_tag = .ok ids ∧
-      ∀ k ∈ [MsgId.NoPositions, .PositionsExtentsMismatch, .ReferenceUnitsMismatch, .InvalidUnit],
+      ∀ k ∈ [MsgId.NoPositions, .PositionsExtentsMismatch, .PositionsDimensionMismatch, .ExtentsDimensionMismatch,
+             .ReferenceUnitsMismatch, .InvalidUnit],
         (k ∈ ids ↔ .plain k ∈ checkMultiTag arrays t) := by
   refine ⟨_, guards_multi_tag arrays t hp he, ?_⟩
   intro k hk
-  have hne : UnitsLenMismatch t.units (refArrays arrays t.refs) → t.refs ≠ [] := by
-    rintro ⟨da, hda, -⟩ h; simp [refArrays, h] at hda
+  have hne : ∀ {P : DataArray → Prop}, (∃ da ∈ refArrays arrays t.refs, P da) → t.refs ≠ [] := by
+    rintro P ⟨da, hda, -⟩ h; simp [refArrays, h] at hda
   simp only [List.mem_cons, List.not_mem_nil, or_false] at hk
-  rcases hk with rfl | rfl | rfl | rfl
+  rcases hk with rfl | rfl | rfl | rfl | rfl | rfl
   · rw [C14_complete_NoPositions]
-    cases MtExtShape arrays t <;> cases hps : MtPosShape arrays t <;> simp
+    cases hps : MtPosShape arrays t <;> simp
   · rw [C14_complete_PositionsExtentsMismatch]
-    cases MtExtShape arrays t <;> cases hps : MtPosShape arrays t <;> simp
-  · rw [(C14_complete_mtag_units arrays t).1]
-    cases MtExtShape arrays t <;>
+    cases hes : MtExtShape arrays t <;> cases hps : MtPosShape arrays t <;> simp [pemFlag]
+  · rw [C14_complete_PositionsDimensionMismatch]
     simp only [List.mem_append, List.mem_ite_nil_right, List.mem_singleton, reduceCtorEq, and_false, false_or,
-      or_false, true_and, Bool.and_eq_true, Bool.not_eq_true', List.isEmpty_eq_false_iff, List.any_eq_true,
-      List.mem_map, bne_iff_ne, ne_eq, UnitsLenMismatch, List.not_mem_nil, and_self, and_true]
-    all_goals
-      constructor
-      · rintro ⟨-, ru, ⟨da, hda, rfl⟩, h⟩; exact ⟨da, hda, h⟩
-      · rintro ⟨da, hda, h⟩; exact ⟨hne ⟨da, hda, h⟩, _, ⟨da, hda, rfl⟩, h⟩
-  · rw [(C14_complete_mtag_units arrays t).2.2, ← anyNonSi_iff]
-    cases MtExtShape arrays t <;> simp
+      or_false, Bool.and_eq_true, Bool.not_eq_true', List.isEmpty_eq_false_iff, List.any_eq_true,
+      bne_iff_ne, ne_eq, and_true, pdmFlag, Option.isSome_iff_ne_none]
+    exact ⟨fun h => h.2, fun h => ⟨hne h.2, h⟩⟩
+  · rw [C14_complete_ExtentsDimensionMismatch]
+    cases hes : MtExtShape arrays t with
+    | none => simp [edmFlag]
+    | some es =>
+      simp only [List.mem_append, List.mem_ite_nil_right, List.mem_singleton, reduceCtorEq, and_false, false_or,
+        or_false, Bool.and_eq_true, Bool.not_eq_true', List.isEmpty_eq_false_iff, List.any_eq_true,
+        bne_iff_ne, ne_eq, and_true, edmFlag, Option.some.injEq, exists_eq_left']
+      exact ⟨fun h => h.2, fun h => ⟨hne h.2, h⟩⟩
+  · rw [(C14_complete_mtag_units arrays t).1]
+    simp only [List.mem_append, List.mem_ite_nil_right, List.mem_singleton, reduceCtorEq, and_false, false_or,
+      or_false, Bool.and_eq_true, Bool.not_eq_true', List.isEmpty_eq_false_iff, List.any_eq_true,
+      List.mem_map, bne_iff_ne, ne_eq, UnitsLenMismatch, and_true]
+    constructor
+    · rintro ⟨-, ru, ⟨da, hda, rfl⟩, h⟩; exact ⟨da, hda, h⟩
+    · rintro ⟨da, hda, h⟩; exact ⟨hne (P := fun _ => True) ⟨da, hda, trivial⟩, _, ⟨da, hda, rfl⟩, h⟩
+  · rw [(C14_complete_mtag_units arrays t).2.2, ← anyNonSi_iff]; simp
 
-/-- which sites are NOT compiled (their conditions iterate over referenced arrays or call the verdict helper): they stay
-tied by `C14_shape_tag` / `C14_shape_multi_tag` / `C14_shape_helpers`; every other site of every function is compiled -/
+/-- the ONE site per function that is not compiled: `not tag_units_match_refs_units(...)` calls the verdict helper, which
+stays tied by `C14_shape_helpers` (its statements) and the differential runs; every other site of every function is
+compiled and covered by a `C14_guards_*` theorem -/
 theorem C14_guards_opaque :
-    opaque_check_tag = [.PositionDimensionMismatch, .ExtentDimensionMismatch, .ReferenceUnitsIncompatible] ∧
-    opaque_check_multi_tag = [.PositionsDimensionMismatch, .ExtentsDimensionMismatch, .ReferenceUnitsIncompatible] ∧
+    opaque_check_tag = [.ReferenceUnitsIncompatible] ∧ opaque_check_multi_tag = [.ReferenceUnitsIncompatible] ∧
     opaque_check_file = [] ∧ opaque_check_entity = [] ∧ opaque_check_feature = [] ∧ opaque_check_property = [] ∧
     opaque_check_data_array = [] ∧ opaque_check_range_dimension = [] ∧ opaque_check_sampled_dimension = [] := by
   decide
 
-/-- compiled + opaque sites are all the report sites of the source, function by function -/
+/-- compiled + opaque sites are all the report sites of the source, function by function (source order; the opaque
+site of the two tag functions sits before `InvalidUnit`) -/
 theorem C14_guards_cover :
     reportSites.map (fun s => (s.1, s.2.1)) =
       (guards_check_file.map fun g => ("check_file", g.1)) ++
       ((guards_check_data_array.map fun g => ("check_data_array", g.1)) ++
-      ((["check_tag"].flatMap fun fn => [(fn, MsgId.NoPosition), (fn, .PositionExtentMismatch),
-          (fn, .PositionDimensionMismatch), (fn, .ExtentDimensionMismatch), (fn, .ReferenceUnitsMismatch),
-          (fn, .ReferenceUnitsIncompatible), (fn, .InvalidUnit)]) ++
-      ((["check_multi_tag"].flatMap fun fn => [(fn, MsgId.NoPositions), (fn, .PositionsExtentsMismatch),
-          (fn, .PositionsDimensionMismatch), (fn, .ExtentsDimensionMismatch), (fn, .ReferenceUnitsMismatch),
-          (fn, .ReferenceUnitsIncompatible), (fn, .InvalidUnit)]) ++
+      ((((guards_check_tag.map (·.1)).take 5 ++ opaque_check_tag ++ (guards_check_tag.map (·.1)).drop 5).map
+          fun k => ("check_tag", k)) ++
+      ((((guards_check_multi_tag.map (·.1)).take 5 ++ opaque_check_multi_tag ++
+          (guards_check_multi_tag.map (·.1)).drop 5).map fun k => ("check_multi_tag", k)) ++
       ((guards_check_feature.map fun g => ("check_feature", g.1)) ++
       ((guards_check_property.map fun g => ("check_property", g.1)) ++
       ((guards_check_range_dimension.map fun g => ("check_range_dimension", g.1)) ++
       ((guards_check_sampled_dimension.map fun g => ("check_sampled_dimension", g.1)) ++
-      (guards_check_entity.map fun g => ("check_entity", g.1))))))))) ∧
-    ((guards_check_tag.map (·.1)) ++ opaque_check_tag).length = 7 ∧
-    (∀ k ∈ [MsgId.NoPosition, .PositionExtentMismatch, .PositionDimensionMismatch, .ExtentDimensionMismatch,
-          .ReferenceUnitsMismatch, .ReferenceUnitsIncompatible, .InvalidUnit],
-      k ∈ (guards_check_tag.map (·.1)) ++ opaque_check_tag) ∧
-    ((guards_check_multi_tag.map (·.1)) ++ opaque_check_multi_tag).length = 7 ∧
-    (∀ k ∈ [MsgId.NoPositions, .PositionsExtentsMismatch, .PositionsDimensionMismatch, .ExtentsDimensionMismatch,
-          .ReferenceUnitsMismatch, .ReferenceUnitsIncompatible, .InvalidUnit],
-      k ∈ (guards_check_multi_tag.map (·.1)) ++ opaque_check_multi_tag) := by
-  refine ⟨by decide, by decide, by decide, by decide, by decide⟩
+      (guards_check_entity.map fun g => ("check_entity", g.1))))))))) := by
+  decide
 
 /-- the locals the compiled conditions read, and the statements that assign them: `positions` / `file_created_at` are
-the read, or `None` when the read raises (what `linkedVal none` / `ofOptInt none` stand for); `refs_units` the
-dimension units of every referenced array (`refs.map getDimUnits`, `C14_shape_helpers`) -/
+the read, or `None` when the read raises (what `linkedVal none` / `ofOptInt none` stand for); `posdim` / `extlen` /
+`extdim` the lengths the environments give them (`dimVal` = `secondDim`); `refs_units` the dimension units of every
+referenced array (`refs.map getDimUnits`, `C14_shape_helpers`) -/
 theorem C14_guards_locals :
     localDefs = [
       ("check_file", "file_created_at", ["try: file_created_at = nixfile.created_at", "except KeyError: file_created_at = None"]),
+      ("check_tag", "posdim", ["if tag.references: posdim = len(tag.position)"]),
+      ("check_tag", "extlen", ["if tag.extent: extlen = len(tag.extent)"]),
       ("check_tag", "refs_units", ["if tag.references: refs_units = [get_dim_units(da) for da in tag.references]"]),
+      ("check_multi_tag", "posdim", ["if len(positions.shape) == 1: posdim = 1", "if not (len(positions.shape) == 1): posdim = positions.shape[1]"]),
       ("check_multi_tag", "refs_units", ["if mtag.references: refs_units = [get_dim_units(da) for da in mtag.references]"]),
-      ("check_multi_tag", "positions", ["try: positions = mtag.positions", "except RuntimeError: positions = None"])] ∧
+      ("check_multi_tag", "positions", ["try: positions = mtag.positions", "except RuntimeError: positions = None"]),
+      ("check_multi_tag", "extdim", ["if len(mtag.extents.shape) == 1: extdim = 1", "if not (len(mtag.extents.shape) == 1): extdim = mtag.extents.shape[1]"])] ∧
     siteLoops.map (fun s => (s.1, s.2.1)) = [("check_data_array", .InvalidDimensionIndex),
       ("check_data_array", .IncorrectDimensionIndex), ("check_data_array", .RangeDimTicksMismatch),
       ("check_data_array", .SetDimLabelsMismatch)] := by
